@@ -1,7 +1,9 @@
 (* C15 -- tracker events mirror the life cycle of each track.
    Statements only; proofs live in Proofs/TrackerCbProofs.v.  The model is the general one (Model/Tracker.v `trkc_step`):
    the subscriber callbacks may raise.  A history is a list of (environment, operation): the environment says what
-   every callback does during that operation (Props/C13.v explains `trk_env`, `reachable_any`).
+   every callback does during that operation (Props/C13.v explains `trk_env`, `reachable_any`).  Operations: update,
+   cleanup, pop_track, register / remove_callback, the public insert_or_update() (no ordering check, no cleanup),
+   assignments to ttl_in_seconds and stream_is_ordered = False.
 
    rc_calls res              the `self._broker.propagate(track, event)` calls the operation started, in order
    abs_calls                 the same as (event, mmsi) pairs;  run_events_c: all of them over a whole run
@@ -25,10 +27,20 @@ Open Scope Z_scope.
    all prefixes as well). *)
 Theorem C15_lifecycle : forall (V : Type) (nattrs : nat) (ttl : option Z) (ordered : bool)
                                (h : list (trk_env V * trk_op V)) (m : Z),
+  trkc_run_ok nattrs (trk_init ttl ordered) h ->
   let run := trkc_run nattrs (trk_init ttl ordered) h in
   sp_alive m (run_events_c (snd run)) = Some (idict_mem (t_tracks (fst run)) m).
 Proof. exact (fun V => @events_lifecycle_c V). Qed.
 Print Assumptions C15_lifecycle.
+
+(* trkc_run_ok: every environment enumerates the set of expired MMSIs (env_ok) and every `insert_or_update()` handed to an
+   ORDERED tracker carries a timestamp that is not older than a track (Props/C12.v explains the caveat).  Histories
+   without that operation satisfy it as soon as their environments do: *)
+Theorem C15_ok_without_insert_or_update : forall (V : Type) (nattrs : nat) (h : list (trk_env V * trk_op V)) (st : trk_tracker V),
+  (forall x, In x h -> env_ok (fst x)) -> (forall env now msg ts, ~ In (env, OpInsertOrUpdate now msg ts) h) ->
+  trkc_run_ok nattrs st h.
+Proof. exact (fun V => @runc_ok_without_insert V). Qed.
+Print Assumptions C15_ok_without_insert_or_update.
 
 (* What each single operation emits, for every MMSI, from every state -- update (accepted or rejected, returning or left
    by a subscriber's exception), pop_track, cleanup (complete or left in the middle), callback registration: exactly the
